@@ -8,7 +8,8 @@ From Helm Require Props.Decisions. (* data conditions of the release operations 
 From Coq Require Import List String Bool Arith.
 From Helm Require Import Engine.Types Engine.Eff Engine.Ops Engine.OpsFix Engine.Cluster Engine.Seq Engine.SeqProofs
                          Engine.Conc Engine.ConcProofs Engine.ConcLocal Engine.ConcProofsB
-                         Engine.ConcRG Engine.ConcRGProgs Engine.ConcPrune Engine.ConcC09 Engine.ConcGenC09.
+                         Engine.ConcRG Engine.ConcRGProgs Engine.ConcPrune Engine.ConcC09 Engine.ConcGenC09
+                         Engine.ConcStart Engine.ConcMix.
 From Helm Require Import Gen.PendingC09.
 Import ListNotations.
 
@@ -283,3 +284,123 @@ Theorem C09_pruning_window_refuted :
   /\ nth_error (outcomes outcome (fst res)) 1 = Some (Some (OErr EOtherErr)).
 Proof. exact pruning_window_refuted. Qed.
 Print Assumptions C09_pruning_window_refuted.
+
+(* ================================================================== *)
+(* Round 4 *)
+
+(* The harness launches every operation up to its first gate (in index order) before the gate
+   schedule starts ([run_started], what Run/RunC09.v evaluates; an operation without any gate —
+   install --dry-run — has returned by then): still [run] on an expanded schedule. *)
+Theorem C09_started_schedules_are_schedules :
+  forall (K : Type) (kh : forall e : eff, K -> K * resp e * list kev) (dresp : forall e, resp e) (A : Type)
+         (ts : list (prog A)) (sch : list nat) (s : cstate K),
+    exists sch', run_started K kh dresp A ts sch s = run K kh dresp A ts sch' s.
+Proof. exact run_started_is_run. Qed.
+Print Assumptions C09_started_schedules_are_schedules.
+
+(* The lock path does not depend on any flag: for ALL flag records the first effect of upgrade is
+   the history read and a pending last revision ends it at once with "another operation is in
+   progress" (there is nothing like --force in the model that could switch the check off; the Go
+   condition is tied to [is_pending (st last)] for all values of all option fields by the decision
+   translator, notes/DEC.md); for install only --dry-run and --replace matter to the name check. *)
+Theorem C09_pending_check_all_flags :
+  forall rn ns fl cid vid mani hks,
+    exists k, upgrade rn ns fl cid vid mani hks = Eff SHistory k
+      /\ forall h last, max_rev_of h = Some last -> is_pending (st last) = true -> k h = Ret (OErr EPending).
+Proof. exact upgrade_pending_check_all_flags. Qed.
+Print Assumptions C09_pending_check_all_flags.
+
+Theorem C09_name_check_all_flags :
+  forall rn ns fl cid vid mani hks,
+    f_dry_run fl = false ->
+    exists k, install_fx rn ns fl cid vid mani hks = Eff SHistory k
+      /\ forall h last, max_rev_of h = Some last ->
+           f_replace fl && (status_eqb (st last) SUninstalled || status_eqb (st last) SFailed) = false ->
+           k h = Ret (OErr ENameInUse).
+Proof. exact install_name_check_all_flags. Qed.
+Print Assumptions C09_name_check_all_flags.
+
+(* MIXES: a rollback or an uninstall running beside the install / upgrade operations (outside the
+   property text, which speaks of "several install or upgrade operations").  What still holds for
+   every schedule, every cluster behaviour and any number of operations: *)
+
+(* ... each revision has exactly one creator, also when rollbacks (without history pruning) and
+   uninstalls --keep-history take part (for ANY programs, deletes included: C09_live_creator_unique) *)
+Theorem C09_mix_unique_creator :
+  forall (K : Type) (kh : forall e : eff, K -> K * resp e * list kev) (dresp : forall e, resp e)
+         (rn ns : string) (ops : list op) (sch : list nat) (l0 : list release) (k : K),
+    Forall (fun o => match o with
+                     | OpInstall fl _ _ _ _ => f_atomic fl = false
+                     | OpUpgrade fl _ _ _ _ => f_max_history fl = 0
+                     | OpRollback fl => f_max_history fl = 0
+                     | OpUninstall fl => f_keep_history fl = true \/ f_dry_run fl = true
+                     end) ops ->
+    NoDup (revs l0) ->
+    let res := run K kh dresp outcome (map (op_prog_fx rn ns) ops) sch (mkC l0 k []) in
+    let tr := c_tr (snd res) in
+    NoDup (created_revs tr)
+    /\ (forall v, In v (revs (c_led (snd res))) -> ~ In v (revs l0) -> exists i, creators_of v tr = [i])
+    /\ (forall v, In v (created_revs tr) -> ~ In v (revs l0) /\ In v (revs (c_led (snd res)))).
+Proof. exact mix_unique_creator. Qed.
+Print Assumptions C09_mix_unique_creator.
+
+(* ... the stored revisions are distinct at the end — for ANY programs whatsoever *)
+Theorem C09_mix_revisions_distinct :
+  forall (K : Type) (kh : forall e : eff, K -> K * resp e * list kev) (dresp : forall e, resp e) (A : Type)
+         (ts : list (prog A)) (sch : list nat) (s : cstate K),
+    NoDup (revs (c_led s)) -> NoDup (revs (c_led (snd (run K kh dresp A ts sch s)))).
+Proof. exact run_revisions_unique. Qed.
+Print Assumptions C09_mix_revisions_distinct.
+
+(* ... an install, an upgrade AND a rollback (any flags) among ANY other threads mutate the cluster
+   only after a create of their own that succeeded; refused create => already-exists *)
+Theorem C09_mix_losers_are_inert :
+  forall (K : Type) (kh : forall e : eff, K -> K * resp e * list kev) (dresp : forall e, resp e)
+         (rn ns : string) (ts : list (prog outcome)) (sch : list nat) (l : list release) (k : K)
+         (i : nat) (o : op),
+    nth_error ts i = Some (op_prog_fx rn ns o) ->
+    match o with OpUninstall _ => False | _ => True end ->
+    let res := run K kh dresp outcome ts sch (mkC l k []) in
+    let tr := c_tr (snd res) in
+    mutations_guarded false (thread_events i tr) = true
+    /\ (thread_created i tr = false ->
+        thread_mutated i tr = false
+        /\ (thread_refused i tr = true ->
+            nth_error (outcomes outcome (fst res)) i = Some (Some (OErr EExistsRev)))).
+Proof. exact mix_losers_are_inert. Qed.
+Print Assumptions C09_mix_losers_are_inert.
+
+(* What does NOT survive a mix: "at most one deployed revision".  An explicit rollback racing an
+   upgrade, NO cluster fault (Rollback never looks at the pending status: the mechanism of K-C09-2
+   without --atomic): both succeed, revisions 3 and 4 deployed.  Replayed on the real code (corpus). *)
+Theorem C09_mix_rollback_refuted :
+  let res := x_run x_rb_ops x_rb_sched x_dep (k0 x_objs) in
+  outcomes outcome (fst res) = [Some OOk; Some OOk]
+  /\ map (fun r => (rev r, st r)) (c_led (snd res)) = [(1, SSuperseded); (2, SSuperseded); (3, SDeployed); (4, SDeployed)]
+  /\ creations (c_tr (snd res)) = [(1, 3); (0, 4)].
+Proof. exact mix_rollback_refuted. Qed.
+Print Assumptions C09_mix_rollback_refuted.
+
+(* Two upgrades and an uninstall --keep-history: the uninstall overwrites the first upgrade's pending
+   record with "uninstalling" — NOT a pending status — so the second upgrade passes the pending check:
+   revisions 3 and 4 deployed.  Replayed on the real code (corpus). *)
+Theorem C09_mix_uninstall_refuted :
+  let res := x_run x_un_ops x_un_sched x_dep (k0 x_objs) in
+  outcomes outcome (fst res) = [Some OOk; Some OOk; Some OOk]
+  /\ map (fun r => (rev r, st r)) (c_led (snd res)) = [(1, SSuperseded); (2, SSuperseded); (3, SDeployed); (4, SDeployed)]
+  /\ creations (c_tr (snd res)) = [(0, 3); (1, 4)].
+Proof. exact mix_uninstall_refuted. Qed.
+Print Assumptions C09_mix_uninstall_refuted.
+
+Example C09_mix_uninstalling_not_pending :
+  is_pending SUninstalling = false
+  /\ let res := x_run [OpUninstall x_flK; OpUpgrade x_fl0 6 6 [x_cm "b" "v6"] []] [0; 0; 1; 1; 1] x_dep (k0 x_objs) in
+     outcomes outcome (fst res) = [Some OOk; Some (OErr ENoDeployed)]
+     /\ thread_created 1 (c_tr (snd res)) = false /\ thread_mutated 1 (c_tr (snd res)) = false.
+Proof. exact mix_uninstalling_not_pending. Qed.
+Print Assumptions C09_mix_uninstalling_not_pending.
+
+Example C09_mix_hypotheses_met :
+  Forall (no_delete_mix) x_rb_ops /\ Forall (no_delete_mix) x_un_ops.
+Proof. exact x_mix_hyps. Qed.
+Print Assumptions C09_mix_hypotheses_met.
